@@ -37,7 +37,8 @@ CLAIM = dict(
     design="8/C10")
 RULE = ("kinds: read = adapter{stream,jsonfile,avro,csvfile,sqlite} x record list (values.py generators restricted to "
         "the types the format supports, every record carries a unique idx) x layout mutations (repeated header, "
-        "dropped/late/duplicated descriptor frame, truncated tail; plain-JSON / non-JSON lines; sqlite batch size) x "
+        "dropped/late/duplicated descriptor frame, truncated tail; plain-JSON / non-JSON / dropped or late descriptor "
+        "lines; sqlite batch size) x "
         "selector from a pool of 48 texts (typed matchers, generator expressions, missing fields, selectors raising on "
         "some records) given as text / Selector / CompiledSelector / empty; thread = in-memory record list x selector x "
         "engine, one reused object in forward, reversed and shuffled order vs a fresh object per record; mksel = "
@@ -159,7 +160,7 @@ def _gen_layout(r, adapter, n):
             lay.append([k, r.randint(0, 40)])
     elif adapter == "jsonfile":
         for _ in range(r.choice([0, 0, 1, 2, 3])):
-            k = r.choice(["plain", "plain", "bad", "plainbad", "blank_desc"])
+            k = r.choice(["plain", "plain", "bad", "plainbad", "blank_desc", "drop_desc", "late_desc"])
             pos = r.randint(0, 40)
             if k == "plain":
                 # _generated is always supplied (a record built without it carries the wall-clock time)
@@ -180,8 +181,8 @@ def _gen_layout(r, adapter, n):
 
 
 def gen_cases(rng, tier):
-    n_read = {"quick": 600, "thorough": 8000, "search": 1500}[tier]
-    n_thread = {"quick": 1200, "thorough": 16000, "search": 3000}[tier]
+    n_read = {"quick": 600, "thorough": 30000, "search": 1500}[tier]
+    n_thread = {"quick": 1200, "thorough": 60000, "search": 3000}[tier]
     cases = []
     # --- make_selector matrix (complete)
     for kind in ("absent", "text", "interp", "compiled"):
@@ -384,27 +385,34 @@ def _write_json(recs, layout, path):
     w.flush()
     w.close()
     lines = []
+    ids, last_desc = {}, 0
     with open(tmp, encoding="utf-8", errors="surrogateescape") as f:
         for line in f:
             j = json.loads(line)
             if j.get("_type") == "recorddescriptor":
-                lines.append((line, ["desc"]))
+                last_desc = len([1 for _, it in lines if it[0] == "desc"]) + 1
+                lines.append((line, ["desc", last_desc]))
             else:
-                lines.append((line, ["rec", int(j["idx"])]))
+                # the writer emits a descriptor line right before the first record that uses it
+                did = ids.setdefault(json.dumps(j["_recorddescriptor"]), last_desc)
+                lines.append((line, ["rec", int(j["idx"]), did]))
     os.remove(tmp)
     for op in layout:
         k, pos = op[0], op[1]
         at = pos % (len(lines) + 1)
+        d = [i for i, l in enumerate(lines) if l[1][0] == "desc"]
         if k == "plain":
             lines.insert(at, (json.dumps(op[2]) + "\n", ["plain", int(op[2]["idx"])]))
         elif k == "bad":
             lines.insert(at, (op[2] + "\n", ["bad", "?"]))
         elif k == "plainbad":
             lines.insert(at, (json.dumps(op[2]) + "\n", ["plainerr", "?"]))
-        elif k == "blank_desc":
-            d = [l for l in lines if l[1][0] == "desc"]
-            if d:
-                lines.insert(at, d[0])
+        elif k == "blank_desc" and d:
+            lines.insert(at, lines[d[0]])
+        elif k == "drop_desc" and d:
+            del lines[d[pos % len(d)]]
+        elif k == "late_desc" and d:
+            lines.append(lines.pop(d[pos % len(d)]))
     with open(path, "w", encoding="utf-8", errors="surrogateescape") as f:
         for line, _ in lines:
             f.write(line)
@@ -512,9 +520,6 @@ def run_real(case):
                 _mk_selector(form, text)
             except Exception as e:
                 return {"setup_error": type(e).__name__, "msg": str(e)[:200]}
-            if adapter in ("avro", "csvfile") and not recs:
-                # an empty CSV file has no header row / an empty Avro container carries no schema: no reader
-                pass
             url = _reader_url(adapter, path, case["layout"])
             plain, perr, pstage = _drain(lambda: RecordReader(url))
             withsel, werr, wstage = _drain(lambda: RecordReader(url, selector=_mk_selector(form, text)))
@@ -608,8 +613,7 @@ def model_op(case, obs):
             table[i] = o
         adapter = case["adapter"]
         items = obs["items"]
-        if adapter == "csvfile":
-            items = items  # header row is consumed by the constructor
+        # (csvfile: the header row is consumed by the reader's constructor and is not an item)
         use_sel = case["form"] not in ("none", "emptytext")
         return {"op": "c10.read", "adapter": adapter, "items": _fill(items, obs["plain"]["err"]), "sel": use_sel,
                 "outcomes": table}
